@@ -1,25 +1,35 @@
 /-
   Otr.Driver — dispatch of driver ops (function-level ops are stateless; conversation-level
-  ops thread a table of model conversations).
+  ops thread a table of model conversations; `spec.…` ops thread the reference implementation's
+  own table, see Otr.DriverSpec).
 -/
 import Otr.DriverPure
 import Otr.DriverConv
 import Otr.DriverKeyFile
+import Otr.DriverSpec
 namespace Otr.Driver
 
-def step (st : DState) (line : String) : DState × String :=
+/-- the model's conversations and, separately, the reference implementation's parties -/
+structure FullState where
+  conv : DState := {}
+  spec : Otr.DriverSpec.SState := {}
+
+def step (st : FullState) (line : String) : FullState × String :=
   match pureOp line with
   | some r => (st, r)
   | none =>
     match keyFileOp line with
     | some r => (st, r)
     | none =>
-      match convOp st line with
-      | some r => r
-      | none => (st, "bad-op")
+      match Otr.DriverSpec.specOp st.spec line with
+      | some (s, r) => ({ st with spec := s }, r)
+      | none =>
+        match convOp st.conv line with
+        | some (c, r) => ({ st with conv := c }, r)
+        | none => (st, "bad-op")
 
-def runAll (lines : List String) (put : String → IO Unit) : IO DState := do
-  let mut st : DState := {}
+def runAll (lines : List String) (put : String → IO Unit) : IO FullState := do
+  let mut st : FullState := {}
   for l in lines do
     let (st', r) := step st l
     st := st'
